@@ -857,6 +857,7 @@ impl<'a> Runtime<'a> {
 
         // Parameters live in their own lexical scope so block locals can shadow them.
         let param_ids = self.bound_param_ids(func_def.id, func_def.params);
+        let has_frame = self.has_frame_arena();
         self.push_scope_with_capacity(func_def.params.params.len(), self.frame);
         let param_scope =
             self.env.last_mut().expect("Parameter scope should exist immediately after push");
@@ -867,6 +868,10 @@ impl<'a> Runtime<'a> {
                 Value::Str(ArenaCow::Borrowed(s)) if self.pool.contains(s.as_ptr()) => {
                     Value::Str(ArenaCow::Owned(self.pool.alloc_str(s)))
                 }
+                // A parameter is a variable like any other: its storage must survive the
+                // frame resets of loops inside the body (`p.push(..)` in a loop grows the
+                // array on the frame, and the iteration's reset took the buffer away).
+                other if has_frame => other.promote(&self.pool, self.frame),
                 other => other,
             };
             param_scope.push(LocalSlot { id: maybe_local, name: param, value: arg });
